@@ -95,7 +95,7 @@ def pushat_pos(kind, n, i):
     return j if 0 <= j < n else -1
 
 
-def random_history(rng, kind, nvals, nops, zero_tok=0, two=True, maxlen=40, bad=None, cross=True, p_out=0.06, fromit=False, xassign=True, selfpush=True):
+def random_history(rng, kind, nvals, nops, zero_tok=0, two=True, maxlen=40, bad=None, cross=True, p_out=0.06, fromit=False, xassign=True, selfpush=True, selfcat=True):
     """random history over up to 3 sequences.  The generator tracks the abstract contents only to choose
     interesting arguments (mostly valid indices, present and absent values); verdicts come from TLC."""
     L = ["reset"]
@@ -206,6 +206,8 @@ def random_history(rng, kind, nvals, nops, zero_tok=0, two=True, maxlen=40, bad=
                     L.append("concatv %d%s" % (o, "".join(" %d" % x for x in vs))); q.extend(vs)
             elif src in kinds and src != o and kinds[src] != "Tuple" and n + len(seqs[src]) <= maxlen:
                 L.append("concat %d %d" % (o, src)); q.extend(seqs[src])
+            elif src == o and selfcat and kd != "Tuple" and 0 < n and 2 * n <= maxlen:        # (a Tuple would then hold every object twice: F-C04-tuple-dup)
+                L.append("concat %d %d" % (o, o)); q.extend(list(q))           # concatenated with itself: doubled
             elif src not in kinds:
                 kd2 = rng.choice(["Array", "List"]) if (cross and kd != "Tuple") else kd
                 L.append("new %d %s" % (src, kd2)); kinds[src] = kd2; seqs[src] = []
